@@ -348,3 +348,14 @@ PLAN["C16"]["units"] = PLAN["C16"]["units"] + _TG_REST + _SRV_INIT
 PLAN["C07"]["units"] = PLAN["C07"]["units"] + [u for u in _TG_REST if u.endswith(("spawn", "__aexit__"))] + _SRV_INIT
 PLAN["C08"]["units"] = PLAN["C08"]["units"] + _SRV_INIT
 PLAN["C14"]["units"] = PLAN["C14"]["units"] + _SRV_INIT
+# C15 "lets requests already in progress finish": a keep-alive timer that survives into a request
+# closes the connection under it at shutdown -- the one-live-timer discipline of both SingleTask classes
+PLAN["C15"]["units"] = PLAN["C15"]["units"] + SINGLE_UNITS
+# C02 "reach the client as one well-formed response": the send task that writes every response of the
+# connection survives only while the priority-tree / buffer-table invariants I1, I2 hold
+PLAN["C02"]["units"] = PLAN["C02"]["units"] + [HP + "_priority_updated", HP + "_create_stream"]
+# C06 "an aborted ... message: closes ... without processing further requests": an application that
+# ends mid-response does not get its response completed for it
+PLAN["C06"]["units"] = PLAN["C06"]["units"] + [HS + "app_send"]
+PLAN["C20"]["units"] = PLAN["C20"]["units"] + ["hypercorn.middleware.proxy_fix:ProxyFixMiddleware.__init__", "hypercorn.middleware.dispatcher:_DispatcherMiddleware.__init__",
+                                               "hypercorn.middleware.http_to_https:HTTPToHTTPSRedirectMiddleware.__init__"]
